@@ -61,6 +61,13 @@ impl C01 {
                 let nq = queries.len() as u64;
                 own.push(OwnSet { l, name: "own:exotic28:T<=2xQ<=2".into(), titles: Titles::Chars { fam: ex, lo: 0, hi: 2 }, queries, block: (60_000 / nq).clamp(1, 500) });
             }
+            if tier == Tier::Thorough || matches!(l, L::None | L::En) {
+                // hundreds of words: more than 255 grams shared between one query and one record
+                let t300 = long_text(300, 50);
+                let words: Vec<&str> = t300.split(' ').collect();
+                let queries = vec![t300.clone(), words[..150].join(" "), words[150..].join(" "), words[..60].join(" "), long_text(60, 100)];
+                own.push(OwnSet { l, name: "own:very long texts (60 / 300 corpus words) x whole and partial texts as queries".into(), titles: Titles::List(vec![t300, long_text(60, 100)]), queries, block: 1 });
+            }
             let lex = lex_strings(l);
             let queries = word_queries(&lex, 2);
             let nq = queries.len() as u64;
